@@ -9,7 +9,11 @@ MODELS = ["server"]
 BINS = {"release": ["srvmsg"]}
 RULE = ("cases = (transport, message bytes) delivered as ONE message to a real jsonrpsee server -- HTTP socket-free through "
         "ServerBuilder::to_service_builder().build(methods, stop).call(POST application/json; body as one frame with exact size hint, "
-        "a sample again with an explicit Content-Length and as 1..3 frames of unknown total length = chunked), WebSocket over 127.0.0.1:0 with a "
+        "a sample again with an explicit Content-Length and as 1..3 frames of unknown total length = chunked; a sample of every generated "
+        "class plus a fixed list (valid calls, notifications, invalid requests, non-JSON text, empty and whitespace-only bodies, bodies "
+        "starting with other bytes) again as transport `httpk`: POST over ONE persistent raw-TCP HTTP/1.1 keep-alive connection to a real "
+        "Server on 127.0.0.1:0, one response read, then a barrier call on the SAME connection -- same status/body/log as socket-free, and the "
+        "barrier must be answered), WebSocket over 127.0.0.1:0 with a "
         "raw soketto client (text frames, binary frames for non-UTF-8 bytes), all frames collected until the connection is quiet "
         "(barrier round-trips + silence window) -- and to the extracted Coq model (Model/Server.v `handle`) under the same "
         "registry (sync/async/blocking/panicking-blocking/subscription/unsubscription handlers, results a function of method and "
@@ -91,9 +95,25 @@ def gen_messages(ctx):
     return msgs
 
 
-def oracle_single(ctx, transport, cfg, msg, o, tag):
-    """C01 restated on the implementation's output alone"""
-    case = {"transport": transport, "cfg": cfg, "msg_hex": msg.hex(), "msg": S.show(msg), "tag": tag}
+# transport `httpk`: messages every run delivers over the persistent HTTP/1.1 connection, whatever the sample holds
+KEEPALIVE_FIXED = [
+    b'{"jsonrpc":"2.0","id":1,"method":"echo","params":[1]}', b'{"jsonrpc":"2.0","id":"a","method":"aecho"}',
+    b'{"jsonrpc":"2.0","id":2,"method":"becho","params":["err"]}', b'{"jsonrpc":"2.0","id":3,"method":"bpanic"}',
+    b'{"jsonrpc":"2.0","id":4,"method":"nope"}', b'{"jsonrpc":"2.0","id":5,"method":"parse1","params":["x"]}',
+    b'{"jsonrpc":"2.0","id":6,"method":"sub"}',
+    b'{"jsonrpc":"2.0","method":"echo"}', b'{"jsonrpc":"2.0","method":"echo","params":[1],"id":1.5}', b'{"jsonrpc":"2.0","method":"nope"}',
+    b'{"jsonrpc":"2.0","id":7}', b'{"id":8,"method":"echo"}', b'{"jsonrpc":"1.0","id":9,"method":"echo"}', b"{}", b'{"jsonrpc":"2.0","id":1,"method":1}',
+    b"hello", b"42", b'"say_hello"', b"null", b"true", b"-", b"x{}", b"\x00", b"\xff\xfe", b"\xef\xbb\xbf{}", b"]", b"}", b",", b":",
+    b"GET / HTTP/1.1", b"POST / HTTP/1.1\r\nHost: x\r\nContent-Length: 0\r\n\r\n", b"\r\n\r\n", b"0\r\n\r\n",
+    b"{", b"[", b'{"jsonrpc":"2.0","id":1,"method":"echo"', b'{"jsonrpc":"2.0","id":1,"method":"echo"}x', b"{]", b'{"a"',
+    b"", b" ", b"\n", b"\r\n", b"\t", b"\x0c", b"   ", b" \t\n\r\x0c" * 5, b" " * 127, b" " * 128, b" " * 129, b" " * 1000,
+    b" " * 127 + b"{}", b" " * 128 + b"{}", b" 1", b"\n\nhello\n",
+]
+
+
+def oracle_single(ctx, transport, cfg, msg, o, tag, via=None):
+    """C01 restated on the implementation's output alone (via = the engine transport when it is not `transport` itself)"""
+    case = {"transport": via or transport, "cfg": cfg, "msg_hex": msg.hex(), "msg": S.show(msg), "tag": tag}
     reps = S.replies_of(transport, o)
     sn = S.sniffed(msg)
     if sn is not None and sn[0] == "batch":
@@ -106,7 +126,8 @@ def oracle_single(ctx, transport, cfg, msg, o, tag):
             ctx.fail("oracle", "reply-not-wellformed", case, f.decode("latin1"))
             return
     if not o["alive"]:
-        ctx.fail("oracle", "connection-stops-serving", case, "no answer to a later call on the same connection")
+        ctx.fail("oracle", "http-connection-stops-serving" if via == "httpk" else "connection-stops-serving", case,
+                 "no answer to a later call on the same connection")
 
     def expect_error(codes, want_id, why):
         if len(reps) != 1:
@@ -159,7 +180,7 @@ def oracle_single(ctx, transport, cfg, msg, o, tag):
 
 
 def run(ctx):
-    ctx.engines = ["srvmsg (harness/src/bin/srvmsg.rs vs modelrun/server_driver.ml over coq/Model/Server.v), single messages, HTTP + WebSocket"]
+    ctx.engines = ["srvmsg (harness/src/bin/srvmsg.rs vs modelrun/server_driver.ml over coq/Model/Server.v), single messages, HTTP (socket-free; keep-alive over TCP) + WebSocket"]
     rng = ctx.rng
     msgs = gen_messages(ctx)
     n_ws = ctx.scale(4000, 60000)
@@ -174,6 +195,26 @@ def run(ctx):
         m, tag = msgs[i]
         mode = "wsb" if rng.random() < 0.1 else "ws"
         cases.append((mode, rng.choice(["u", "u", "d", "l2"]), m, tag))
+    # the same message over ONE persistent HTTP/1.1 keep-alive connection of a real Server (transport `httpk`): the answer is
+    # the socket-free one and the connection answers the barrier call that follows.  Every generator class is sampled
+    # (quota per class first, the rest at random) and a fixed list of bodies is always there.
+    n_k = min(ctx.scale(3000, 40000), len(msgs))
+    by_tag = {}
+    for i, (_, tag) in enumerate(msgs):
+        by_tag.setdefault(tag, []).append(i)
+    k_pick = []
+    for tag in sorted(by_tag):
+        k_pick += rng.sample(by_tag[tag], min(len(by_tag[tag]), max(20, n_k // (2 * len(by_tag)))))
+    chosen = set(k_pick)
+    rest = [i for i in range(len(msgs)) if i not in chosen]
+    k_pick += rng.sample(rest, min(len(rest), max(0, n_k - len(k_pick))))
+    rng.shuffle(k_pick)
+    have = {m for m, _ in msgs}
+    fixed = [m for m in KEEPALIVE_FIXED if m not in have]
+    cases += [("http", "u", m, "keepalive-fixed") for m in fixed]
+    k_cases = [("httpk", "u", m, "keepalive-fixed") for m in KEEPALIVE_FIXED] + [("httpk", "u") + msgs[i] for i in k_pick]
+    # the fixed bodies at the start and again at the end of the list (a fresh connection / one that has served many messages)
+    cases += k_cases + [("httpk", "u", m, "keepalive-fixed") for m in KEEPALIVE_FIXED]
     res = S.run_engine(ctx, [(t, c, m) for t, c, m, _ in cases])
     by_msg = {}
     for (t, c, m, tag), (a, b) in zip(cases, res):
@@ -187,12 +228,16 @@ def run(ctx):
             continue
         if S.canon(a) != b:
             ctx.fail("diff", "srvmsg-model-differs:" + tr, case, {"impl": a[:1500], "model": b[:1500]})
-        cls = oracle_single(ctx, tr, c, m, o, tag)
+        cls = oracle_single(ctx, tr, c, m, o, tag, via=t if t == "httpk" else None)
         ctx.count("class:" + str(cls))
+        if t == "httpk":
+            ctx.count("httpk-class:" + str(cls))
         trivial = S.replies_of(tr, o) == [PARSE_ERR]
         ctx.record({"transport": t, "msg": S.show(m)}, a, nontrivial=not trivial)
-        if t in ("httpc", "httpl"):
+        if t in ("httpc", "httpl", "httpk"):
             ref = by_msg.get(m, {}).get("http")
+            if ref is None:
+                ctx.fail("oracle", "engine-crash", case, "no plain http result of the same message to compare with")
             if ref is not None and (ref[0]["status"], ref[0]["frames"], ref[0]["log"]) != (o["status"], o["frames"], o["log"]):
                 ctx.fail("oracle", "http-framing-changes-answer", case,
                          {"plain": [ref[0]["status"]] + [f.decode("latin1") for f in ref[0]["frames"]], t: [o["status"]] + [f.decode("latin1") for f in o["frames"]]})
@@ -218,7 +263,7 @@ def replay(payload):
         ts = [case["transport"]] if "transport" in case else ["http", "ws"]
         for t in ts:
             line = "%s %s %s 250\n" % (t, case.get("cfg", "u"), case["msg_hex"] or "-")
-            for name, cmd in (("impl", vlib.rust_bin("srvmsg")), ("model", vlib.model_bin("server"))):
+            for name, cmd in (("impl", S.impl_bin()), ("model", vlib.model_bin("server"))):
                 rc, out = vlib.sh([cmd], input=line)
                 o = S.parse_out(out.strip().split("\n")[-1])
                 print(t, name, "->", out.strip())
